@@ -275,7 +275,16 @@ class World {
   }
   // (remove and) define message `slot` anew with the given priority
   bool redefine(int slot, int prio) {
-    if (m_slot[slot]) { m_map->remove(m_slot[slot]); m_slot[slot] = nullptr; }
+    m_midProblem.clear();
+    if (m_slot[slot]) {
+      m_map->remove(m_slot[slot]);
+      m_slot[slot] = nullptr;
+      m_req[slot] = -1;
+      // judged between removal and re-definition: afterwards the allocator may hand out the same address again,
+      // which would hide a stale queue entry
+      m_midProblem = queueProblem();
+      if (m_midProblem == "queue-dangling") return true;  // nothing further is executed on this world
+    }
     bool ok = readCsv(defLine(slot, prio));
     rebind();
     m_req[slot] = prio;
@@ -368,6 +377,7 @@ class World {
   NullResolver m_resolver;
   MessageMap* m_probeMap = nullptr;
   MessageMap* m_otherMap = nullptr;
+  string m_midProblem;
   Message* m_probe = nullptr;
 };
 
